@@ -299,22 +299,51 @@ impl<'a, K: Ord, V> IntoIterator for &'a BTreeMap<K, V> {
 
 // ---------------------------------------------------------------------------------------------
 // HashMap / HashSet: iteration order unspecified
+//
+// Layout note (measured): every live entry is its own heap object (`Box<(K, V)>`) and the map
+// only holds the pointers. With entries inline, a reference returned by `get_mut` is a pointer
+// with a *symbolic offset* into whatever object embeds the map (the whole table), and every
+// read or write through it becomes a byte_extract / byte_update over that entire object
+// (15 M SAT variables for one `retrieve_cache`). With boxed entries the same reference is
+// "one of <= HCAP distinct objects at a constant offset".
 // ---------------------------------------------------------------------------------------------
 
-#[derive(Clone)]
 pub struct HashMap<K, V> {
     pub len: usize,
     /// order variable: iterate the insertion sequence backwards
     pub rev: bool,
-    /// order variable: rotate the iteration start (taken modulo len)
+    /// order variable: rotate the iteration start (used modulo len)
     pub rot: usize,
-    pub items: [Option<(K, V)>; HCAP],
+    pub items: [Option<Box<(K, V)>>; HCAP],
+}
+
+impl<K: Clone, V: Clone> Clone for HashMap<K, V> {
+    fn clone(&self) -> Self {
+        let mut items: [Option<Box<(K, V)>>; HCAP] = std::array::from_fn(|_| None);
+        let mut i = 0;
+        while i < HCAP {
+            if i < self.len {
+                items[i] = Some(Box::new((**self.items[i].as_ref().unwrap()).clone()));
+            }
+            i += 1;
+        }
+        Self { len: self.len, rev: self.rev, rot: self.rot, items }
+    }
 }
 
 #[inline]
 fn order_index(len: usize, rev: bool, rot: usize, i: usize) -> usize {
-    // i-th visited slot; len > 0, i < len
-    let mut j = i + (rot % len);
+    // i-th visited slot; len > 0, i < len, rot < HCAP. No `%`: a 64-bit divider circuit per
+    // iteration step is what the SAT back end would pay for it.
+    if len == 1 {
+        // one live key has one order: keep the index a constant for the solver
+        return 0;
+    }
+    let mut r = rot;
+    while r >= len {
+        r -= len;
+    }
+    let mut j = i + r;
     if j >= len {
         j -= len;
     }
@@ -366,7 +395,7 @@ impl<K, V> Iterator for HIntoIter<K, V> {
         if self.i < self.m.len {
             let j = order_index(self.m.len, self.m.rev, self.m.rot, self.i);
             self.i += 1;
-            self.m.items[j].take()
+            self.m.items[j].take().map(|b| *b)
         } else {
             None
         }
@@ -392,84 +421,102 @@ impl<K: Eq, V> HashMap<K, V> {
         let (rev, rot) = pick_order();
         Self { len: 0, rev, rot, items: std::array::from_fn(|_| None) }
     }
-    /// A map with a fixed iteration order (harnesses that do not study order use this to keep
-    /// the formula small; say so in the harness).
-    pub fn new_fixed_order() -> Self {
-        Self { len: 0, rev: false, rot: 0, items: std::array::from_fn(|_| None) }
-    }
     pub fn with_capacity(_: usize) -> Self {
         Self::new()
     }
-    fn pos<Q: ?Sized + Eq>(&self, key: &Q) -> Option<usize>
+    /// Plant an entry without a lookup (building a pre-state; keys must be distinct).
+    pub fn verif_push(&mut self, key: K, value: V) {
+        let n = self.len;
+        self.items[n] = Some(Box::new((key, value)));
+        self.len = n + 1;
+    }
+    // All slot accesses below use the loop counter as index (a constant in every unwound
+    // iteration), never an index computed elsewhere.
+    pub fn get<Q: ?Sized + Eq>(&self, key: &Q) -> Option<&V>
     where
         K: Borrow<Q>,
     {
         let mut i = 0;
-        while i < self.len {
-            let k: &Q = self.items[i].as_ref().unwrap().0.borrow();
-            if k == key {
-                return Some(i);
+        while i < HCAP {
+            if i < self.len {
+                let kv = self.items[i].as_ref().unwrap();
+                if kv.0.borrow() == key {
+                    return Some(&kv.1);
+                }
             }
             i += 1;
         }
         None
     }
-    pub fn get<Q: ?Sized + Eq>(&self, key: &Q) -> Option<&V>
-    where
-        K: Borrow<Q>,
-    {
-        match self.pos(key) {
-            Some(i) => Some(&self.items[i].as_ref().unwrap().1),
-            None => None,
-        }
-    }
     pub fn get_mut<Q: ?Sized + Eq>(&mut self, key: &Q) -> Option<&mut V>
     where
         K: Borrow<Q>,
     {
-        match self.pos(key) {
-            Some(i) => Some(&mut self.items[i].as_mut().unwrap().1),
-            None => None,
+        let mut i = 0;
+        while i < HCAP {
+            if i < self.len {
+                if self.items[i].as_ref().unwrap().0.borrow() == key {
+                    return Some(&mut self.items[i].as_mut().unwrap().1);
+                }
+            }
+            i += 1;
         }
+        None
     }
     pub fn contains_key<Q: ?Sized + Eq>(&self, key: &Q) -> bool
     where
         K: Borrow<Q>,
     {
-        self.pos(key).is_some()
+        self.get(key).is_some()
     }
     pub fn insert(&mut self, key: K, value: V) -> Option<V> {
-        match self.pos(&key) {
-            Some(i) => Some(std::mem::replace(&mut self.items[i].as_mut().unwrap().1, value)),
-            None => {
-                assert!(self.len < HCAP, "VERIF-MODEL-BOUND: HashMap model capacity exceeded");
-                self.items[self.len] = Some((key, value));
-                self.len += 1;
-                None
+        let mut i = 0;
+        while i < HCAP {
+            if i < self.len {
+                if self.items[i].as_ref().unwrap().0 == key {
+                    let old = self.items[i].take().unwrap();
+                    self.items[i] = Some(Box::new((key, value)));
+                    return Some(old.1);
+                }
+            } else {
+                // i == len: append
+                self.items[i] = Some(Box::new((key, value)));
+                self.len = i + 1;
+                return None;
             }
+            i += 1;
         }
+        panic!("VERIF-MODEL-BOUND: HashMap model capacity exceeded");
     }
     pub fn remove<Q: ?Sized + Eq>(&mut self, key: &Q) -> Option<V>
     where
         K: Borrow<Q>,
     {
-        match self.pos(key) {
-            Some(i) => {
-                let out = self.items[i].take();
-                let mut j = i;
-                while j + 1 < self.len {
-                    self.items[j] = self.items[j + 1].take();
-                    j += 1;
+        let mut out: Option<V> = None;
+        let mut found = false;
+        let mut i = 0;
+        while i < HCAP {
+            if i < self.len {
+                if !found {
+                    if self.items[i].as_ref().unwrap().0.borrow() == key {
+                        out = self.items[i].take().map(|b| b.1);
+                        found = true;
+                    }
+                } else {
+                    // shift left (pointer moves only)
+                    self.items[i - 1] = self.items[i].take();
                 }
-                self.len -= 1;
-                out.map(|kv| kv.1)
             }
-            None => None,
+            i += 1;
         }
+        if found {
+            self.len -= 1;
+        }
+        out
     }
     pub fn clear(&mut self) {
         let mut i = 0;
-        while i < self.len {
+        while i < HCAP {
             self.items[i] = None;
             i += 1;
         }
@@ -493,11 +540,13 @@ impl<K: Eq, V> HashMap<K, V> {
     pub fn retain<F: FnMut(&K, &mut V) -> bool>(&mut self, mut f: F) {
         let mut w = 0;
         let mut r = 0;
-        while r < self.len {
-            let mut kv = self.items[r].take().unwrap();
-            if f(&kv.0, &mut kv.1) {
-                self.items[w] = Some(kv);
-                w += 1;
+        while r < HCAP {
+            if r < self.len {
+                let mut kv = self.items[r].take().unwrap();
+                if f(&kv.0, &mut kv.1) {
+                    self.items[w] = Some(kv);
+                    w += 1;
+                }
             }
             r += 1;
         }
@@ -533,7 +582,6 @@ impl<K: Eq, V> FromIterator<(K, V)> for HashMap<K, V> {
     }
 }
 
-#[derive(Clone)]
 pub struct HashSet<K> {
     pub m: HashMap<K, ()>,
 }
@@ -604,12 +652,15 @@ impl<K: Eq> FromIterator<K> for HashSet<K> {
 // ---------------------------------------------------------------------------------------------
 use std::cell::{Cell, UnsafeCell};
 
-pub static mut LOCK_WRITES: u64 = 0;
-pub static mut NESTED_READS: u64 = 0;
-
+// (No `static mut` counters: measured on Kani 0.68, a zero-initialised `static mut u64` shares its
+// allocation with other all-zero constants such as the capacity of `Vec::new()`.)
 pub struct RwLock<T> {
     readers: Cell<u32>,
     writer: Cell<bool>,
+    /// number of write acquisitions so far ("no lock write happened" assertions)
+    writes: Cell<u32>,
+    /// number of read acquisitions made while a read guard of the same thread was alive
+    nested_reads: Cell<u32>,
     v: UnsafeCell<T>,
 }
 unsafe impl<T: Send> Send for RwLock<T> {}
@@ -633,7 +684,7 @@ impl<G> std::fmt::Debug for PoisonError<G> {
 }
 impl<T> RwLock<T> {
     pub fn new(v: T) -> Self {
-        Self { readers: Cell::new(0), writer: Cell::new(false), v: UnsafeCell::new(v) }
+        Self { readers: Cell::new(0), writer: Cell::new(false), writes: Cell::new(0), nested_reads: Cell::new(0), v: UnsafeCell::new(v) }
     }
     pub fn read(&self) -> Result<RwLockReadGuard<'_, T>, PoisonError<RwLockReadGuard<'_, T>>> {
         assert!(
@@ -641,9 +692,7 @@ impl<T> RwLock<T> {
             "VERIF-LOCK: read while write-held by the same thread (self-deadlock)"
         );
         if self.readers.get() > 0 {
-            unsafe {
-                NESTED_READS += 1;
-            }
+            self.nested_reads.set(self.nested_reads.get() + 1);
         }
         self.readers.set(self.readers.get() + 1);
         Ok(RwLockReadGuard { l: self })
@@ -653,14 +702,22 @@ impl<T> RwLock<T> {
             !self.writer.get() && self.readers.get() == 0,
             "VERIF-LOCK: write while held by the same thread (self-deadlock)"
         );
-        unsafe {
-            LOCK_WRITES += 1;
-        }
+        self.writes.set(self.writes.get() + 1);
         self.writer.set(true);
         Ok(RwLockWriteGuard { l: self })
     }
     pub fn verif_held(&self) -> bool {
         self.writer.get() || self.readers.get() > 0
+    }
+    pub fn verif_writes(&self) -> u32 {
+        self.writes.get()
+    }
+    pub fn verif_nested_reads(&self) -> u32 {
+        self.nested_reads.get()
+    }
+    /// read access for harness assertions without touching the counters
+    pub fn verif_peek(&self) -> &T {
+        unsafe { &*self.v.get() }
     }
 }
 impl<'a, T> std::ops::Deref for RwLockReadGuard<'a, T> {
